@@ -786,4 +786,148 @@ def locaLong : List Int → Int → Option (List Int)
     | none => none
     | some o => (locaLong rest o).map (o :: ·)
 
+/-! ## read-fonts/src/tables/variations.rs — `DeltaSetIndexMap::get` -/
+
+/-- the bit field `(x & mask) >> lo` for a mask of `n` contiguous bits starting at bit `lo`
+(`x` non-negative). -/
+def bitField (x : Int) (lo n : Nat) : Int := (x / 2 ^ lo) % 2 ^ n
+
+/-- `EntryFormat::entry_size`: `((self.bits() & MAP_ENTRY_SIZE_MASK.bits()) >> 4) + 1` in `u8`
+(mask `0x30`): raw `>>` and `+`. -/
+def entrySize (bits : Int) : Option Int := do
+  let m := bitField bits 4 2 * 16        -- bits & 0x30
+  let s ← u8.shr m 4
+  u8.add s 1
+
+/-- `EntryFormat::bit_count`: `(self.bits() & INNER_INDEX_BIT_COUNT_MASK.bits()) + 1` (mask `0x0F`). -/
+def bitCount (bits : Int) : Option Int := u8.add (bitField bits 0 4) 1
+
+/-- big-endian read of `n` bytes at `off` (`data.read_at::<u8 | u16 | Uint24 | u32>(offset)?`):
+`none` = `ReadError::OutOfBounds` (a Rust `Err`, not a trap). -/
+def readBE : List Int → Nat → Nat → Option Int
+  | _, _, 0 => some 0
+  | data, off, n + 1 =>
+    match data[off]?, readBE data (off + 1) n with
+    | some b, some rest => some (b * 256 ^ n + rest)
+    | _, _ => none
+
+/-- the clamp `index.min(map_count.saturating_sub(1))` as the code has it. -/
+def dsimClamp (mapCount index : Int) : Option Int :=
+  pure (imin index (u32.saturatingSub mapCount 1))
+
+/-- the clamp with a raw `map_count - 1` (u32): what the saturating form guards against. -/
+def dsimClampRawSub (mapCount index : Int) : Option Int := do
+  let m ← u32.sub mapCount 1
+  pure (imin index m)
+
+/-- `DeltaSetIndexMap::get(index)` on the parsed fields (`entryFormat` u8 bits, `mapCount` u32 — u16
+for format 0 —, `data` = the map data bytes).  `some none` = `Err(ReadError)`, `none` = trap.
+`let index = index.min(map_count.saturating_sub(1)); let offset = index as usize * entry_size as usize;`
+`entry = read 1..4 bytes`; `outer: (entry >> bit_count) as u16`,
+`inner: (entry & ((1 << bit_count) - 1)) as u16`. -/
+def dsimGetWith (clamp : Int → Int → Option Int) (entryFormat mapCount index : Int) (data : List Int) :
+    Option (Option (Int × Int)) := do
+  let es ← entrySize entryFormat
+  let ix ← clamp mapCount index
+  let off ← usize.mul ix es
+  match readBE data off.toNat es.toNat with
+  | none => pure none
+  | some entry => do
+    let bc ← bitCount entryFormat
+    let outer ← u32.shr entry bc
+    let one ← u32.shl 1 bc
+    let mask ← u32.sub one 1
+    pure (some (u16.cast outer, u16.cast (u32.land entry mask)))
+
+def dsimGet := dsimGetWith dsimClamp
+def dsimGetRawSub := dsimGetWith dsimClampRawSub
+
+/-! ## skrifa hint engine — SDS / SDB and the DELTAP / DELTAC exception arithmetic
+(`hint/engine/graphics.rs` `op_sds`, `op_sdb`; `hint/engine/delta.rs` `op_deltap`, `op_deltac`) -/
+
+/-- `op_sds`: `if n as u32 > 6 { Err(InvalidStackValue) } else { delta_shift = n as u16 }`;
+`none` = the instruction is rejected (a Rust `Err`). -/
+def opSds (n : Int) : Option Int := if u32.cast n > 6 then none else some (u16.cast n)
+/-- the same with a SIGNED range check `n > 6` (what `as u32` guards against: negative operands). -/
+def opSdsSigned (n : Int) : Option Int := if n > 6 then none else some (u16.cast n)
+/-- `op_sdb`: `delta_base = n as u16`. -/
+def opSdb (n : Int) : Int := u16.cast n
+
+/-- one exception of DELTAP1-3 / DELTAC1-3 (`variant` = 0, 16, 32):
+`let ppem = gs.ppem as u32; let bias = variant + gs.delta_base as u32;`
+`let mut c = (b as u32 & 0xF0) >> 4; c += bias;`
+`if ppem == c { b = (b & 0xF) - 8; if b >= 0 { b += 1 } b *= 1 << (6 - gs.delta_shift as i32); … }`.
+`some none` = the exception does not apply at this size, `some (some adj)` = the adjustment in
+26.6 units, `none` = trap. -/
+def deltaException (ppem deltaBase deltaShift variant b : Int) : Option (Option Int) := do
+  let bias ← u32.add variant (u32.cast deltaBase)
+  let c0 ← u32.shr (bitField (u32.cast b) 4 4 * 16) 4
+  let c ← u32.add c0 bias
+  if u32.cast ppem = c then do
+    let lo := bitField (u32.cast b) 0 4          -- b & 0xF  (i32 `&` with a non-negative mask)
+    let b1 ← i32.sub lo 8
+    let b2 ← if b1 ≥ 0 then i32.add b1 1 else pure b1
+    let sh ← i32.sub 6 (i32.cast deltaShift)
+    let f ← i32.shl 1 sh
+    let b3 ← i32.mul b2 f
+    pure (some b3)
+  else pure none
+
+/-- a program `[SDB sdb] [SDS sds] DELTA(arg)` at `ppem` from the default graphics state
+(delta base 9, delta shift 3): `none` = trap, `some none` = a rejected SDS (hinting error),
+`some (some r)` = the exception result. -/
+def deltaProgramWith (sdsOp : Int → Option Int) (ppem : Int) (sdb sds : Option Int) (variant b : Int) :
+    Option (Option (Option Int)) :=
+  let base := match sdb with | some n => opSdb n | none => 9
+  match sds with
+  | none => (deltaException ppem base 3 variant b).map some
+  | some n =>
+    match sdsOp n with
+    | none => some none
+    | some sh => (deltaException ppem base sh variant b).map some
+
+def deltaProgram := deltaProgramWith opSds
+
+/-! ## incremental-font-transfer/src/patchmap.rs — format 2 entry ids -/
+
+inductive IdxRes where
+  | ok (v : Int)
+  | negative
+  | tooBig
+  deriving Repr, DecidableEq
+
+/-- `compute_format2_new_entry_index(entry_data, last_entry_index)`:
+`let new_index = (last_entry_index as i64) + 1 + delta.unwrap_or(0) as i64;` (two raw i64 `+`),
+`if new_index.is_negative() { Err } ; u32::try_from(new_index).map_err(..)`. -/
+def f2NewEntryIndex (last : Int) (delta : Option Int) : Option IdxRes := do
+  let a ← i64.add last 1
+  let n ← i64.add a (delta.getD 0)
+  if n < 0 then pure .negative
+  else if n > 4294967295 then pure .tooBig
+  else pure (.ok n)
+
+/-- the 32-bit variant: `let next = last_entry_index + 1;` (raw u32 `+`) then
+`next.checked_add_signed(delta)`. -/
+def f2NewEntryIndexU32 (last : Int) (delta : Option Int) : Option IdxRes := do
+  let next ← u32.add last 1
+  let n := next + delta.getD 0
+  if n < 0 then pure .negative
+  else if n > 4294967295 then pure .tooBig
+  else pure (.ok n)
+
+/-- the ids of a run of entries (`deltas[i] = none`: no ENTRY_ID_DELTA field); decoding stops at
+the first error: `some (ids, err?)`, `none` = trap.  The first entry starts from 0
+(`last_entry.….unwrap_or(0)`). -/
+def f2EntryIdsWith (step : Int → Option Int → Option IdxRes) :
+    List (Option Int) → Int → Option (List Int × Bool)
+  | [], _ => some ([], false)
+  | d :: rest, last =>
+    match step last d with
+    | none => none
+    | some (.ok v) => (f2EntryIdsWith step rest v).map fun (ids, e) => (v :: ids, e)
+    | some _ => some ([], true)
+
+def f2EntryIds (deltas : List (Option Int)) : Option (List Int × Bool) :=
+  f2EntryIdsWith f2NewEntryIndex deltas 0
+
 end FontVerif.Checked
